@@ -272,6 +272,19 @@ theorem C03_blocking_poll_does_not_wait_with_blocked (s : St) (hr : s.r = RPc.id
   simp [startPollT, hr, stepR, he]
   omega
 
+/-- The wait decision, any state: the call may wait in the kernel exactly when it has no timeout
+and the blocked list was empty when it looked (`.start` step); the kernel entry then leads to
+`.waiting` exactly when that was decided, and to the wake pass otherwise. -/
+theorem C03_wait_decision (s : St) :
+    (s.r = RPc.start → ((stepR s).block = true ↔ (s.inf = true ∧ s.blocked = []))) ∧
+    (∀ n, s.r = RPc.enter n →
+      ((stepR s).r = RPc.waiting ↔ s.block = true) ∧ ((stepR s).r = RPc.w1 ↔ s.block = false)) := by
+  refine ⟨?_, ?_⟩
+  · intro hr
+    cases hb : s.blocked <;> cases hi : s.inf <;> simp [stepR, hr, hb, hi]
+  · intro n hr
+    cases hb : s.block <;> simp [stepR, hr, hb]
+
 /-- **Bounded response without a timeout**: once no future is in the middle of a poll, ONE
 `Ring::poll(None)` of the ring thread — nothing completes, the kernel only consumes the queue — wakes
 the `min len #blocked` oldest blocked futures, exactly like a poll with a timeout, provided at least
